@@ -15,6 +15,11 @@ FIRST = {
     "S02b-zero-remaining-parents-skip-readiness": ("missed", "scripted worlds of C02/C03 now contain zero-runtime strategies (a parent with zero remaining time that has not completed)"),
     "S05b-zero-deferral-for-zero-remaining-parent": ("missed (no detector for an event that is re-queued at its own timestamp forever)", "new livelock detector: 400 events handled at one clock value with no task or ledger change; C05 gained scripted_termination with zero-runtime tasks"),
     "S08b-scheduler-start-count-ignores-retraction": ("missed", "C08 gained scripted_trace (retracting plan-ahead policy whose attributes match the offers it asks for)"),
+    "S16f-stale-latest-time": ("missed (re-timing beyond every inserted time, followed by an insertion below it on a small queue, was too rare)", "C16 event_queue: half of the operation lists are small queues in one unit with early insertions and late re-timings; quick budget 3000 -> 8000"),
+    "S17f-refused-add-child-registers": ("missed (no refused operation in the histories)", "C17 graph_history gained refused_edge: add_child on an absent parent must raise ValueError and every clause is asked again on the same object"),
+    "S15f-copy-pending-as-available": ("missed (models always loaded in zero time, so no invocation saw a pending model)", "C15 models have a drawn load time (0/2/5/9 us); class invocation_while_a_model_is_loading"),
+    "S09f-policy-rng-rewound-unseeded": ("missed (every release policy object was asked once)", "C09 two_fresh_processes draws --replication_factor 1..3 (replicas share the policy object); release_policies_two_processes asks each policy 1-3 times"),
+    "S13f-rollback-keeps-records": ("missed by C13 (caught by C04 resources_machine: a refused joint allocation leaves records behind; the greedy policies only inherit it through copy(worker_pools))", None),
     "S17b-stale-topological-order-cache": ("missed", "C17 gained graph_history: all clauses re-asked after every add_node/add_child/remove on one Graph object"),
     "S01b-reload-profile-skips-booking": ("missed", None),
     "S11e-ilp-skips-precedence-for-scheduled-children": ("missed (state never built)", "scheduler-input states for C11 may contain children that an earlier invocation planned ahead (SCHEDULED after a RUNNING/SCHEDULED parent)"),
